@@ -90,11 +90,25 @@ func unseats(op histOp, held dm.Path) bool {
 		}
 		return true
 	}
+	// an entry of a list ABOVE the held node goes or is replaced: the entries of that list move (a Go slice of struct
+	// values shifts them), and with them the storage the kept selection stands on
+	above := func(p dm.Path) bool {
+		k := len(p)
+		if k == 0 || k >= len(held) || p[k-1].Key == nil || p[k-1].Name != held[k-1].Name {
+			return false
+		}
+		for i := 0; i < k-1; i++ {
+			if p[i].Name != held[i].Name || strings.Join(p[i].Key, "\x00") != strings.Join(held[i].Key, "\x00") {
+				return false
+			}
+		}
+		return true
+	}
 	switch op.Kind {
 	case "delete", "replace":
-		return prefixOf(op.Path)
+		return prefixOf(op.Path) || above(op.Path)
 	case "delete2":
-		return prefixOf(op.Path) || prefixOf(op.Path2)
+		return prefixOf(op.Path) || prefixOf(op.Path2) || above(op.Path) || above(op.Path2)
 	case "upsert":
 		// an upsert that names another entry of a list above the held node may make that list grow, and a list kept as
 		// a Go slice of struct values then moves the very storage the kept selection stands on (nothing is promised
